@@ -522,7 +522,7 @@ def _w_reshape_edge(self, op):
 
 def _w_add_set_of_foreign_lines(self, op):
     """a set built by the caller whose items are line objects of *another* Gfa (same names) is added"""
-    names = [x for x in self.gfa.segment_names][:3]
+    names = [x for x in self.gfa.segment_names if isinstance(x, str)][:3]
     if not names:
         self.st.count("op.skipped")
         return core.Outcome(True, "skipped")
